@@ -172,9 +172,14 @@ class _ReplaceNode(ast.NodeTransformer):
         return super().visit(n)
 
 
-def _first_ifexp(stmt):
+def _first_ifexp(stmt, values=False):
     """First conditional expression of a simple statement that chooses
-    between two names / attributes (a class or function to call)."""
+    between two names / attributes (a class or function to call); with
+    values=True also the whole right-hand side of an assignment / return
+    (`x = a if c else b`)."""
+    if values and isinstance(stmt, (ast.Assign, ast.Return)) and isinstance(
+            stmt.value, ast.IfExp):
+        return stmt.value
     for n in _walk_no_nested(stmt):
         if isinstance(n, ast.IfExp) and isinstance(
                 n.body, (ast.Name, ast.Attribute)) and isinstance(
@@ -183,9 +188,9 @@ def _first_ifexp(stmt):
     return None
 
 
-def _lift(fn):
+def _lift(fn, values=False):
     def split(s):
-        e = _first_ifexp(s)
+        e = _first_ifexp(s, values)
         if e is None:
             return s
         # two copies of s with e replaced by either branch
@@ -351,7 +356,7 @@ def set_parents(fn):
 
 
 def normalise(fn, world=None, modname=None, cls=None, primitives=(),
-              inline=True, aliases=True, detable=True):
+              inline=True, aliases=True, detable=True, lift_values=False):
     info = {"inlined": []}
     if inline and world is not None:
         inl = Inliner(world, modname, cls, primitives)
@@ -382,7 +387,114 @@ def normalise(fn, world=None, modname=None, cls=None, primitives=(),
         fn = propagate_aliases(fn)
         fn = _lift(fn)
         ast.fix_missing_locations(fn)
+    if lift_values:
+        if not info["inlined"] and not aliases:
+            fn = acopy(fn)
+        fn = _lift(fn, values=True)
+        ast.fix_missing_locations(fn)
     set_parents(fn)
     fn._parent = parent
     fn._norm_info = info
     return fn
+
+
+def loop_to_tailcall(fn):
+    """A function whose body is `while True: BODY` (no break / continue),
+    where no local other than the parameters is carried from one iteration
+    to the next, is the tail-recursive function it abbreviates:
+
+        def f(a, b):                      def f(a, b):
+            while True:                       BODY'   # every path that fell
+                BODY                                  # off the end of BODY
+                                                      # now ends in
+                                              return f(a', b')
+
+    (`yield from` / `await` for generators / coroutines); an assignment to a
+    parameter that is the last statement of its path is folded into the call
+    argument.  Returns the rewritten copy, or None if the side conditions do
+    not hold (the caller then analyses the function as written)."""
+    body = [s for s in fn.body if not (isinstance(s, ast.Expr) and isinstance(
+        s.value, ast.Constant) and isinstance(s.value.value, str))]
+    if len(body) != 1 or not isinstance(body[0], ast.While):
+        return None
+    w = body[0]
+    if w.orelse or not (isinstance(w.test, ast.Constant) and w.test.value
+                        in (True, 1)):
+        return None
+    from .unroll import _has
+    if _has(w.body, (ast.Break, ast.Continue)):
+        return None
+    a = fn.args
+    if a.vararg or a.kwarg or a.posonlyargs or a.kwonlyargs:
+        return None
+    params = [x.arg for x in a.args]
+    # one iteration on its own: no use of a non-parameter local may see the
+    # "value from before the iteration"
+    one = acopy(fn)
+    one.body = [acopy(s) for s in w.body] + [ast.Return(None)]
+    ast.fix_missing_locations(one)
+    locals_ = set()
+    for n in ast.walk(one):
+        if isinstance(n, ast.Name) and isinstance(n.ctx, ast.Store):
+            locals_.add(n.id)
+    locals_ -= set(params)
+    cfg = CFG(one, may_raise=suspension_may_raise, name=fn.name)
+    rd = reaching_defs(cfg, params + sorted(locals_))
+    for u in cfg.reachable:
+        if u.ast is None:
+            continue
+        for x in _walk_no_nested(_use_root(u)):
+            if isinstance(x, ast.Name) and isinstance(x.ctx, ast.Load) and \
+                    x.id in locals_ and cfg.entry.id in defs_reaching(
+                        rd, u, x.id):
+                return None
+    is_async = isinstance(fn, ast.AsyncFunctionDef)
+    is_gen = any(isinstance(n, (ast.Yield, ast.YieldFrom))
+                 for n in ast.walk(fn))
+    if is_async and is_gen:
+        return None
+
+    def call(env):
+        c = ast.Call(ast.Name(fn.name, ast.Load()),
+                     [acopy(env.get(p, ast.Name(p, ast.Load())))
+                      for p in params], [])
+        if is_gen:
+            c = ast.YieldFrom(c)
+        elif is_async:
+            c = ast.Await(c)
+        return ast.Return(c)
+
+    def tail(stmts, env):
+        stmts = list(stmts)
+        if stmts:
+            last = stmts[-1]
+            if isinstance(last, (ast.Return, ast.Raise)):
+                return stmts
+            if isinstance(last, ast.If):
+                new = ast.copy_location(ast.If(
+                    last.test, tail(last.body, env),
+                    tail(last.orelse, env)), last)
+                return stmts[:-1] + [new]
+            if isinstance(last, ast.Assign) and len(last.targets) == 1 and \
+                    isinstance(last.targets[0], ast.Name) and \
+                    last.targets[0].id in params and \
+                    last.targets[0].id not in env and not any(
+                        isinstance(n, ast.Name) and n.id in env
+                        for n in ast.walk(last.value)) and not any(
+                            isinstance(n, (ast.Yield, ast.YieldFrom,
+                                           ast.Await, ast.Call))
+                            for n in ast.walk(last.value)):
+                env2 = dict(env)
+                env2[last.targets[0].id] = last.value
+                return tail(stmts[:-1], env2) if stmts[:-1] else [
+                    ast.copy_location(call(env2), last)]
+        r = call(env)
+        if stmts:
+            ast.copy_location(r, stmts[-1])
+        else:
+            ast.copy_location(r, w)
+        return stmts + [r]
+    out = acopy(fn)
+    out.body = tail([acopy(s) for s in w.body], {})
+    ast.fix_missing_locations(out)
+    return out
